@@ -305,7 +305,7 @@ impl Local {
             self.stats.states += new_nodes;
             self.stats.transitions += new_nodes;
             self.stats.max_depth = self.stats.max_depth.max(rec.len() as u64);
-            if let PivotMode::Bounded { .. } = mode {
+            if matches!(mode, PivotMode::Bounded { .. } | PivotMode::BoundedShallow { .. }) {
                 let d = rec.iter().filter(|p| p.opt > 0).count();
                 *self.stats.counters.entry_ref(&format!("executions_with_{}_deviations", d)) += 1;
             }
